@@ -70,7 +70,9 @@ impl HookRng {
     }
 }
 
-pub use crate::maybe_nan::{verif_cast_view_mut as cast_view_mut, verif_remove_nan_mut as remove_nan_mut};
+pub use crate::maybe_nan::{
+    verif_cast_view_mut as cast_view_mut, verif_remove_nan_mut as remove_nan_mut,
+};
 pub use crate::quantile::interpolate::verif_index_api::{
     float_quantile_index_fraction, higher_index, lower_index,
 };
